@@ -361,6 +361,16 @@ def _(rng, t, i):
     ref = rng.choice([b'prefixmacr', b'prefix', b'pr', b'p', b''])
     t[i] = t[i][:-1] + b'${prefixmacro}${' + ref + b'}"'
     return [b'prefixmacro', b'=', b'"v"'] + t
+# the same defects with names so long that the diagnostic itself approaches the size of the buffer it is formatted in
+@edit('macro-unknown-long-name', 'maildir_path')
+def _(rng, t, i): t[i] = b'"${' + b'm' * rng.choice([8150, 8160, 8162, 8165, 8170, 8180, 8186]) + b'}"'; return t
+@edit('macro-unused-long-name', 'kw_maildir')
+def _(rng, t, i): t[0:0] = [b'u' * rng.choice([8170, 8177, 8178, 8180, 8185, 8190, 8191]), b'=', b'"v"']; return t
+@edit('macro-defined-twice-long-name', 'maildir_path')
+def _(rng, t, i):
+    name = b'd' * rng.choice([8165, 8169, 8170, 8178, 8180, 8186])
+    t[i] = b'"${' + name + b'}"'
+    return [name, b'=', b'"/v"', name, b'=', b'"/w"'] + t
 @edit('macro-unterminated', 'maildir_path')
 def _(rng, t, i): t[i] = t[i][:-1] + b'${x"'; return t
 @edit('macro-wrong-context', 'maildir_path')
@@ -544,7 +554,12 @@ def run(ck):
     helper = common.rec_helper()
     invalid_cases = [c for c in cases if c[0] == 'invalid']
     rng.shuffle(invalid_cases)
-    for kind, cls, text in invalid_cases[:(25 if q else 300)]:
+    # one configuration of every defect class first (the gate does not depend on the kind of defect - nor on the mode mdsort runs in)
+    seen_cls = set()
+    first = [c for c in invalid_cases if not (c[1] in seen_cls or seen_cls.add(c[1]))]
+    picks = (first + [c for c in invalid_cases if c not in first])[:(max(25, len(first)) if q else 300)]
+    gate_runs = [(c, mode) for c in picks for mode in ('maildir', 'stdin', 'dry-stdin')]
+    for (kind, cls, text), mode in gate_runs:
         sb = mdrun.Sandbox()
         src = sb.maildir('src')
         hout = os.path.join(sb.root, 'helper-out'); os.makedirs(hout)
@@ -553,10 +568,14 @@ def run(ck):
         before = sb.tree()
         # a valid block in front that would act on the maildir if the file were accepted
         full = (b'maildir "%s" {\n\tmatch all exec "%s" label "touched" move "%s"\n}\n' % (src.encode(), helper.encode(), sb.maildir('dst').encode())) + text
+        if mode != 'maildir' and not re.search(rb'(^|\s)stdin\s*\{', text):
+            # started as an MDA: a valid stdin block that would deliver the message if the file were accepted
+            full = (b'stdin {\n\tmatch all exec "%s" move "%s"\n}\n' % (helper.encode(), sb.maildir('dst').encode())) + full
         before = sb.tree()
         conf = sb.write_conf(full)
         before = sb.tree()
-        rc, out, err = sb.run([], conf=conf, env={'VERIF_HELPER_OUT': hout, 'HOME': HOME.decode()})
+        args = {'maildir': [], 'stdin': ['-'], 'dry-stdin': ['-d', '-']}[mode]
+        rc, out, err = sb.run(args, conf=conf, env={'VERIF_HELPER_OUT': hout, 'HOME': HOME.decode()}, stdin=(b'To: a@b\n\nfrom stdin\n' if mode != 'maildir' else None))
         stats['binary'] += 1
         after = sb.tree()
         calls = common.helper_calls(hout)
@@ -574,7 +593,7 @@ def run(ck):
         elif {k: v for k, v in after.items() if 'helper-out' not in k} != {k: v for k, v in before.items() if 'helper-out' not in k}:
             why = 'files changed'
         if why:
-            ck.violation('rejected configuration (defect "%s") but %s' % (cls, why), rep)
+            ck.violation('rejected configuration (defect "%s")%s but %s' % (cls, {'maildir': '', 'stdin': ', mdsort reading the message from stdin', 'dry-stdin': ', mdsort -d reading from stdin'}[mode], why), dict(rep, mode=mode))
         sb.cleanup()
         if len(ck.violations) > 6:
             break
@@ -587,7 +606,7 @@ def run(ck):
                 'parentheses / body / header with 1 string or a string block / date with every field, comparison, 15 scalar spellings and ages up to the 32-bit limit / new / old / all / '
                 'isdirectory / command, and/or chains; actions: every action incl. exec with option orders and attachment blocks; strings with escaped quotes, backslashes, braces, #, $, '
                 '~, ${macro}, ${path}, back-references; 9 pattern delimiters, flags i l u; random blanks, newlines and comments between tokens); %d classes of invalidating edits at a '
-                'random (thorough: every, up to 6) applicable position; 2-4 byte-level mutations per configuration; the gate on the binary for a sample of the rejected ones. '
+                'random (thorough: every, up to 6) applicable position; 2-4 byte-level mutations per configuration; the gate on the binary for one rejected configuration of every defect class (and more), each in maildir mode, reading the message from stdin, and with -d reading from stdin. '
                 'non-trivial = valid and catalogue cases' % len(EDITS),
         'samples': samples,
         'traces_validated_against_impl': len(cases),
